@@ -10,7 +10,7 @@ open Spec
 
 set_option linter.unusedSectionVars false
 
-variable {R : Type} [Field R] [RealFns R]
+variable {R : Type} [CommRing R] [Div R] [RealFns R]
 
 /-! ### worlds -/
 
